@@ -135,9 +135,15 @@ Viol(S0, a, res, ack, pkc, post) ==
   \* ---- window start records the channel value (= supply of the denomination) --------------
   \cup { <<"C41", "cv-at-window-start">> : x \in
            IF \E q \in restarted : post.rl[q].on /\ post.rl[q].cv # S0.sup[DenomOfPath(q)] THEN {1} ELSE {} }
+  \* ---- C44 (diagnostic, judged by the packet family's property): export/import is the identity ----
+  \cup { <<"C44", "export-import-identity">> : x \in
+           IF a.a = "XImport" /\ ~(res = "ok" /\ Impl(post) = Impl(T)) THEN {1} ELSE {} }
   \* ---- full conformance with the specification (diagnostic only) --------------------------
   \cup { <<"CONF", a.a \o ":" \o E.res \o "/" \o res>> : x \in
            IF E.res = res /\ (a.a \in {"Recv", "Resolve"} => E.ack = ack) /\ Impl(E.S) = Impl(post) THEN {} ELSE {1} }
+
+XiViol(ln) == { <<"C44", "re-export-equals-export">> : x \in
+                  IF ln.a.a = "XImport" /\ ln.res = "ok" /\ ln.xi # "same" THEN {1} ELSE {} }
 
 Sanity(ln, S0) ==
        { <<"X", "time">> : x \in IF ln.st.now = S0.now + ln.a.dt THEN {} ELSE {1} }
@@ -165,7 +171,7 @@ TraceNext ==
                 g2  == GhostStep(T, a, ln.res, ln.ack, pkc)
                 pk2 == PkStep(T, a, ln.res, ln.ack, pkc)
                 S2  == StateOf(ln.st, g2, pk2)
-            IN /\ Report(ln, Sanity(ln, S) \cup Viol(S, a, ln.res, ln.ack, pkc, S2))
+            IN /\ Report(ln, Sanity(ln, S) \cup XiViol(ln) \cup Viol(S, a, ln.res, ln.ack, pkc, S2))
                /\ S' = S2
                /\ l' = l + 1
     /\ (l + 1 = Len(Trace) => PrintT(<<"CONSUMED", l + 1>>))
